@@ -613,3 +613,47 @@ def subst_args(term, amap):
             return base[:3] + ((base[3] if len(base) > 3 else ()) + sel,) + tuple(base[4:])
         return ("proj", base, sel)
     return tuple(subst_args(x, amap) for x in term)
+
+
+# ---- captured variables of closures, expressed in the enclosing function's terms --------------------------------
+
+def lift_captures(facts, clo, term, depth=40):
+    """Rewrite a term of closure `clo` so that it no longer mentions the closure environment: captured variables
+    (('arg', 1, (k, ...)) leaves) become the creating function's expression for capture k; the closure's own
+    parameters become ('cparam', level, n, sel) with level = nesting depth of the closure (1 = outermost).
+    Applied recursively up to the top-level function.  Returns the term unchanged for a non-closure."""
+    import re as _re
+    if clo.kind != "Closure":
+        return term
+    level = clo.id.count("::{closure#")
+    parent_id = _re.sub(r"::\{closure#\d+\}$", "", clo.id)
+    parent = facts.get(parent_id, clo.unit)
+    ops = None
+    if parent is not None:
+        for bi, si, s in parent.stmts():
+            r = s.get("r")
+            if r and r.get("k") == "agg" and r.get("closure") == clo.id:
+                ops = [expr(parent, o, depth) for o in r["ops"]]
+
+    def sub(x):
+        if not isinstance(x, tuple) or not x:
+            return x
+        if x[0] == "arg" and isinstance(x[1], int):
+            sel = x[2] if len(x) > 2 else ()
+            if x[1] >= 2:
+                return ("cparam", level, x[1], sel)
+            if x[1] == 1 and ops is not None and sel and isinstance(sel[0], str) and sel[0].isdigit() and int(sel[0]) < len(ops):
+                base = ops[int(sel[0])]
+                rest = tuple(sub(y) for y in sel[1:])
+                if not rest:
+                    return base
+                if isinstance(base, tuple) and base and base[0] in ("arg", "phi"):
+                    return (base[0], base[1], base[2] + rest)
+                if isinstance(base, tuple) and base and base[0] == "call":
+                    return ("call", base[1], base[2], base[3] + rest, base[4])
+                return ("proj", base, rest)
+        return tuple(sub(y) for y in x)
+    out = sub(term)
+    if parent is not None and parent.kind == "Closure":
+        return lift_captures(facts, parent, out, depth)
+    return out
